@@ -12,6 +12,7 @@
 import SimVerif.Pcap
 import SimVerif.PcapDecode
 import SimVerif.Lemmas.PcapSites
+import SimVerif.Lemmas.PcapBlocks
 import SimVerif.TcpEx
 
 namespace SimVerif.Pcap
@@ -699,6 +700,54 @@ theorem C19_tcp_not_captured (tp : TParams) (n : NetSt) (now : Int) (name : Stri
   repeat' split
   all_goals rfl
 
+/-- **Every TCP function through which a packet can reach `send_packet`** — `send_packet`
+    itself, the segmentation step, the retransmission step, `close()`, and everything that
+    calls `close()`: `open()`, `async_connect` (opens a closed socket first), the acceptor's
+    `internal_connect` (`tcpAttach`: re-opens the socket accepted into), `check_accept_queue`,
+    the acceptor's `incoming_packet`, `async_accept` (closes an open peer socket first),
+    `acceptor::close` — and `incoming_packet` of a socket: in EVERY state the effect list is a
+    sequence of blocks (`CapBlocks`, SimVerif/Lemmas/PcapBlocks.lean), each of which is a
+    non-packet effect, or a packet forwarded directly that is a SYN / SYN-ACK / ACK / RST, or
+    a `send_packet` block = the record iff capturing, immediately followed by its packet.
+    (The direct forwards are exactly the C++ `forward_packet` call sites outside
+    `send_packet`: simulation.cpp:338, acceptor.cpp:301, acceptor.cpp:359, tcp_socket.cpp:900.) -/
+theorem C19_tcp_effect_shape (n : NetSt) (now : Int) (name : String) :
+    (∀ p, CapBlocks n.cfg.pcap now (n.tcpSendPacket now name p).2)
+    ∧ (∀ hops seg, CapBlocks n.cfg.pcap now (n.tcpSendSeg now name hops seg).2)
+    ∧ (∀ r, n.tcpResendOne now name = some r → CapBlocks n.cfg.pcap now r.2)
+    ∧ CapBlocks n.cfg.pcap now (n.tcpClose now name).2
+    ∧ (∀ v4, CapBlocks n.cfg.pcap now (n.tcpOpen now name v4).2)
+    ∧ (∀ target h, CapBlocks n.cfg.pcap now (n.tcpConnect now name target h).2)
+    ∧ (∀ ep cid, CapBlocks n.cfg.pcap now (n.tcpAttach now name ep cid).2)
+    ∧ CapBlocks n.cfg.pcap now (n.accCheckQueue now name).2
+    ∧ (∀ p, CapBlocks n.cfg.pcap now (n.accIncoming now name p).2)
+    ∧ (∀ op, CapBlocks n.cfg.pcap now (n.accAsyncAccept now name op).2)
+    ∧ CapBlocks n.cfg.pcap now (n.accClose now name).2
+    ∧ (∀ tp p, CapBlocks n.cfg.pcap now (n.tcpIncoming tp now name p).2) :=
+  ⟨fun p => capBlocks_sendPacket n _ rfl now name p,
+   fun hops seg => capBlocks_sendSeg n _ rfl now name hops seg,
+   fun r h => capBlocks_resendOne n _ rfl now name r h,
+   capBlocks_close n _ rfl now name,
+   fun v4 => capBlocks_open n _ rfl now name v4,
+   fun target h => capBlocks_connect n _ rfl now name target h,
+   fun ep cid => capBlocks_attach n _ rfl now name ep cid,
+   capBlocks_accCheckQueue n _ rfl now name,
+   fun p => capBlocks_accIncoming n _ rfl now name p,
+   fun op => capBlocks_accAsyncAccept n _ rfl now name op,
+   capBlocks_accClose n _ rfl now name,
+   fun tp p => capBlocks_tcpIncoming _ tp n now name p⟩
+
+/-- **What the block shape says**, for any effect list of that shape: (i) every record is
+    immediately followed by a packet, carries the time of the call, that packet's payload, and
+    the sequence number the packet is stamped with, and occurs only when capturing; (ii) when
+    capturing, every packet NOT immediately preceded by a record is a SYN, SYN-ACK, ACK or RST;
+    (iii) with capture off there is no record; (iv) never more records than packets. So: exactly
+    one record per packet that is not one of those four kinds, right before it. -/
+theorem C19_tcp_shape_meaning (pcap : Bool) (now : Int) (l : List NEff) (h : CapBlocks pcap now l) :
+    RecThenPkt pcap now l ∧ BarePkts pcap false l ∧ (pcap = false → capsTcp l = [])
+    ∧ (capsTcp l).length ≤ (s5_fwdsOf l).length :=
+  ⟨h.recThenPkt, h.barePkts, fun hp => by subst hp; exact h.no_record_when_off, h.records_le_packets⟩
+
 /-! ## 2. UDP, function level -/
 
 /-- **`send_to`** (every state, every argument): either nothing is forwarded and nothing is
@@ -973,6 +1022,17 @@ example : PcapDecode.decodeFile (capFile ip final.log) = some
         pkt := { verIhl := 0x45, ipLen := 40, ttl := 200, proto := 6, src := 0x0a000001,
                  dst := 0x0a000002, sport := 2000, dport := 80, seq := 7, udpLen := 0,
                  payload := [] } } ] := by decide
+
+/-- `close()` of the connected writer at time 5: the record of the (empty) closing segment right
+    before it; the handshake with capture on: the SYN-ACK goes out bare -/
+example :
+    capsTcp (n0.tcpClose 5 "s1").2 = [{ t := 5, src := epA, dst := epB, seq := 0, payload := [] }]
+    ∧ (s5_fwdsOf (n0.tcpClose 5 "s1").2).map (fun p => (p.ty, p.ec, p.bc)) = [(.err, .eof, 0)]
+    ∧ capsTcp (({ Hs.nA with cfg := { Hs.cfg with pcap := true } } : NetSt).accIncoming 0 "a" Hs.synA).2 = []
+    ∧ (s5_fwdsOf (({ Hs.nA with cfg := { Hs.cfg with pcap := true } } : NetSt).accIncoming 0 "a" Hs.synA).2).map (·.ty)
+        = [.synack] := by decide
+
+example := C19_tcp_shape_meaning _ 5 _ (C19_tcp_effect_shape n0 5 "s1").2.2.2.1
 
 /-- UDP: a bound sender, a bound receiver: one record right before the one datagram -/
 def nU : NetSt :=
